@@ -254,9 +254,46 @@ def gen_case(ctx, rng, p_invalid=0.0):
     return {"spec": spec, "asg": draw_assignment(rng, POOLS.rc), "soll": rng.random() < 0.5, "schedule_seed": rng.randrange(1 << 30), "pkg": pkg}
 
 
+async def parent_child_table(ctx):
+    """complete: every (indicator, outcome) of a parent x every (indicator, outcome) of its child x both flag values, for group > segment and
+    segment > free-text element (thorough: three levels group > segment > element)"""
+    combos = [(ind, out) for ind in ("MUSS", "SOLL", "KANN", "X") for out in "FUK"]
+    levels = 2 if ctx.quick else 3
+    idx = 0
+    from itertools import product as _product
+
+    for chain_ in _product(combos, repeat=levels):
+        for soll in (True, False):
+            for shape in (("G", "S") if levels == 2 else ("G", "S", "F"), ("S", "F") if levels == 2 else ("G", "G", "S")):
+                idx += 1
+                if not ctx.mine(idx):
+                    continue
+                asg = {str(i + 1): out for i, (_ind, out) in enumerate(chain_)}
+                nodes = []
+                for i, ((ind, _out), kind) in enumerate(zip(chain_, shape)):
+                    x = {"parts": [[ind, T.CANON_SPELLING[ind], ["rc", str(i + 1)], f"[{i + 1}]"]]}
+                    nodes.append((kind, x))
+                # build the chain from the innermost node outwards
+                inner = None
+                for depth in range(len(nodes) - 1, -1, -1):
+                    kind, x = nodes[depth]
+                    d = f"{kind}{depth}"
+                    if kind == "F":
+                        node = {"k": "F", "d": d, "x": x, "input": "text"}
+                    elif kind == "S":
+                        node = {"k": "S", "d": d, "x": x, "des": [inner] if inner else []}
+                    else:
+                        node = {"k": "G", "d": d, "x": x, "grps": [inner] if inner and inner["k"] == "G" else [], "segs": [inner] if inner and inner["k"] == "S" else []}
+                    inner = node
+                spec = [inner] if inner["k"] == "G" else [{"k": "G", "d": "root", "x": {"parts": [["MUSS", "Muss", None, None]]}, "grps": [], "segs": [inner]}]
+                await check_tree(ctx, {"spec": spec, "asg": asg, "soll": soll, "schedule_seed": idx * 8 + 1})
+                ctx.count("parent_child_table_cases")
+
+
 async def run(ctx):
     rng = ctx.rng
     E.install()
+    await parent_child_table(ctx)
     for i in range(ctx.budget(500, 40_000)):
         case = gen_case(ctx, rng, p_invalid=0.05 if rng.random() < 0.3 else 0.0)
         await check_tree(ctx, case)
